@@ -76,8 +76,8 @@ var properties = map[string]Property{
 	},
 	"C03": {
 		Level: "other",
-		Rules: []string{"P-POST-NONEMPTY", "P-RTERR", "P-PANICTYPE", "P-ASSERT", "P-NILGUARD", "P-IFACE-EQ", "V-VALIDATED", "V-ACCEPT", "P-SCT", "O-SEQ", "G-IMPORTS"},
-		Explanation: "Decided (structural part): (i) every return of a retrieve-family function is a fresh error value, the result of a step on the same sink, a variable proven non-nil, or nil on a path where the sink is known non-empty (must-analysis over appends and len(result)>0 edges), so success is never empty and every result[0] read follows a successful step; (ii) only the three documented runtime error types are converted to the runtime-error interface, each implements error, and ErrorFunctionFailed is built only under a non-nil error of a user-function call; (iii) no explicit panic in evaluation code, reflect.TypeOf(x) dereferenced only under x != nil, every unchecked assertion is a pool element, a runtime error asserted to error, or a validated comparator operand, and every interface comparison has a nil / comparable-concrete operand or validated operands; (iv) recursion cycles descend on the tree and loops are counted/range/worklist loops. Not decided: index expressions of the filter list protocol (valueList[0], left[index] in AND/OR, rightValues[0]) whose safety needs a relational length invariant (assumed); subscript arithmetic (overflow / range) is decided under C11; time bounds beyond termination.",
+		Rules: []string{"P-POST-NONEMPTY", "P-RTERR", "P-PANICTYPE", "P-ASSERT", "P-NILGUARD", "P-IFACE-EQ", "V-VALIDATED", "V-ACCEPT", "P-SCT", "O-SEQ", "I-OVERFLOW", "I-RANGE", "I-BUF", "I-PROGRESS", "G-IMPORTS"},
+		Explanation: "Decided (structural part): (i) every return of a retrieve-family function is a fresh error value, the result of a step on the same sink, a variable proven non-nil, or nil on a path where the sink is known non-empty (must-analysis over appends and len(result)>0 edges), so success is never empty and every result[0] read follows a successful step; (ii) only the three documented runtime error types are converted to the runtime-error interface, each implements error, and ErrorFunctionFailed is built only under a non-nil error of a user-function call; (iii) no explicit panic in evaluation code, reflect.TypeOf(x) dereferenced only under x != nil, every unchecked assertion is a pool element, a runtime error asserted to error, or a validated comparator operand, and every interface comparison has a nil / comparable-concrete operand or validated operands; (iv) recursion cycles descend on the tree and loops are counted/range/worklist loops. Not decided: index expressions of the filter list protocol (valueList[0], left[index] in AND/OR, rightValues[0]) whose safety needs a relational length invariant (assumed); time bounds beyond termination. Also decided (v): subscript arithmetic cannot overflow, produced indices lie in [0, length-1], buffer writes are in range and subscript loops terminate (zone abstract interpretation, see C11).",
 		Assumptions: []string{"assumed obligations: the list-length protocol of filter evaluation (every computed list has length 1 or the member count)"},
 	},
 	"C08": {
@@ -94,6 +94,12 @@ var properties = map[string]Property{
 		Level: "other",
 		Rules: []string{"V-ACCEPT", "V-LITERAL", "V-VALIDATED", "V-SINGLE-RIGHT", "G-IMPORTS"},
 		Explanation: "Decided (structural part): every validator keeps exactly one JSON type on all paths (numeric: float64, with json.Number converted on every path), blanks everything else with the absence marker, reports 'found' exactly for kept elements and visits every element; each literal kind (float64, bool, string, nil) selects the direct-equality comparator with the validator keeping that kind, non-literals use reflect.DeepEqual with the permissive validator; ordering and regex comparators assert exactly the type their embedded validator keeps, after skipping the marker; the comparator call is dominated by successful validation of both operand lists. Not decided: which operand ends up on the right when both are non-member operands (the live `$.a == 1` vs `1 == $.a` json.Number discrepancy) and DeepEqual's numeric semantics across decodings.",
+	},
+	"C11": {
+		Level: "other",
+		Rules: []string{"I-OVERFLOW", "I-RANGE", "I-BUF", "I-PROGRESS", "O-SEQ", "G-IMPORTS"},
+		Explanation: "Decided (totality half, for every start/end/step/length): zone (difference-bound matrix) abstract interpretation with trace partitioning of every subscript implementation, helpers inlined, with subscript numbers ranging over the whole machine integer range and 0 <= length <= maxInt/16: no addition, subtraction, negation or multiplication on subscript values can leave the machine integer range (exact big-integer interval per operation); every integer stored into a produced index list lies in [0, length-1]; every write into and reslice of the pre-sized buffer is in range (for both loops, using the iteration-count lemma: a counter incremented once per iteration of a loop whose variable moves by at least one towards a fixed bound is bounded by the distance between start and bound); make() lengths are non-negative; every loop variable moves towards its bound by a provably non-zero amount (termination). The consuming loops visit the produced indices completely and in order (O-SEQ). Not decided: exactness w.r.t. Python slicing (which elements are selected) — a numerical property.",
+		Assumptions: []string{"a []interface{} cannot have more than maxInt/16 elements (element size 16 bytes)", "the iteration-count lemma (proved in DESIGN.md §3.G) is part of the trusted base"},
 	},
 	"C12": {
 		Level: "other",
